@@ -377,6 +377,71 @@ fn structured(ctx: &Ctx) -> Stats {
     });
     total.merge(st);
     total.exhaustive.push("UTF-16LE/BE: all strings of 1..=3 code units over 14 surrogate-class units, with 0 or 1 trailing byte".into());
+    if fw::should_stop() {
+        return total;
+    }
+    // two sequences inside a long ASCII run: the first at every offset 0..=33, the second at every
+    // distance 1..=40 (and 47/48/49, 63/64/65) after it, with tails of several lengths - the fast
+    // paths re-enter after the first sequence at a new phase relative to the 16-byte strides
+    let all = encs::all();
+    let st = par_run(ctx, all.len() * 2, |part, st| {
+        let enc = all[part / 2];
+        let half = part % 2;
+        let algo = model_dec::algo_for(enc);
+        let is16 = matches!(algo, Algo::Utf16(_));
+        let atoms: Vec<Vec<u8>> = crate::hist::atoms(algo).into_iter().filter(|a| a.iter().any(|b| *b >= 0x80 || *b == 0x1B)).collect();
+        let want = if thorough { 8 } else { 4 };
+        let stepa = (atoms.len() / want).max(1);
+        let atoms: Vec<Vec<u8>> = atoms.into_iter().step_by(stepa).take(want).collect();
+        let mut drv = DecDriver::new();
+        let mut dists: Vec<usize> = (1..=40).collect();
+        dists.extend_from_slice(&[47, 48, 49, 63, 64, 65, 127, 128, 129]);
+        for (xi, x) in atoms.iter().enumerate() {
+            for (yi, y) in atoms.iter().enumerate() {
+                if (xi + yi) % 2 != half {
+                    continue;
+                }
+                for p in 0..=33usize {
+                    if fw::should_stop() {
+                        return;
+                    }
+                    for &d in &dists {
+                        for tail in [0usize, 3, 16, 35] {
+                            let mut v: Vec<u8> = Vec::with_capacity(p + d + tail + 16);
+                            let unit = |v: &mut Vec<u8>, i: usize| {
+                                let c = b'a' + (i % 26) as u8;
+                                match algo {
+                                    Algo::Utf16(true) => {
+                                        v.push(0);
+                                        v.push(c);
+                                    }
+                                    Algo::Utf16(false) => {
+                                        v.push(c);
+                                        v.push(0);
+                                    }
+                                    _ => v.push(c),
+                                }
+                            };
+                            for i in 0..p {
+                                unit(&mut v, i);
+                            }
+                            v.extend_from_slice(x);
+                            for i in 0..d.saturating_sub(if is16 { 1 } else { x.len() }) {
+                                unit(&mut v, i);
+                            }
+                            v.extend_from_slice(y);
+                            for i in 0..tail {
+                                unit(&mut v, i);
+                            }
+                            record(enc, algo, &v, &mut drv, st, true, "two-sequences-in-long-ascii");
+                        }
+                    }
+                }
+            }
+        }
+    });
+    total.merge(st);
+    total.exhaustive.push("per encoding: two non-ASCII atoms inside an ASCII run - first at every offset 0..=33, second at every distance 1..=40, 47..49, 63..65, 127..129 - with tails of 0/3/16/35 units".into());
     total
 }
 
